@@ -15,6 +15,14 @@ def ext_literals(F, f):
 
 
 def run(ctx):
+    _run(ctx)
+    ctx.delegate("C09", ["C09.W5", "C09.ctor"], "C08.commit0",
+                 "equal entry counts for every n including 0: a new writer is dirty (so drop emits both headers) and every "
+                 "successful write leaves it dirty", floor=3)
+    ctx.delegate("C04", ["C04.agree"], "C08.index",
+                 "the complete reader sees every pair: the index it pairs rows with holds exactly the entries of the .shx", floor=2)
+
+def _run(ctx):
     F = ctx.facts("default")
     ctx.rule("C08.order", "write_shape_and_record writes the shape, then the row, and propagates both results", floor=1)
     ctx.rule("C08.commit", "commit order: once a call has irreversibly committed an entry to some file (write_shape appends a record "
